@@ -34,7 +34,8 @@ OpsFull == { Op("full", B, "master", <<>>, 0, FALSE, <<K("elem", Q, "uint", V(3)
              Op("full", A, "master", <<>>, 0, FALSE, <<K("elem", P, "uint", V(2), <<>>), K("full", B, "master", <<>>, <<K("elem", Q, "uint", V(3), <<>>)>>)>>),
              Op("full", B, "master", <<>>, 0, FALSE, <<K("elem", Q, "uint", V(3), <<>>), K("elem", P, "uint", V(2), <<>>)>>),            \* invalid child
              Op("full", A, "master", <<>>, 0, FALSE, <<K("full", B, "master", <<>>, <<K("elem", U, "uint", V(1), <<>>)>>)>>),          \* invalid grandchild
-             Op("full", R2, "master", <<>>, 0, FALSE, <<>>) }
+             Op("full", R2, "master", <<>>, 0, FALSE, <<>>),
+             Op("full", A, "master", <<>>, 1, FALSE, <<K("elem", G, "bin", Bin127, <<>>)>>) }                                                 \* body does not fit width 1
 OpsBad == { [El(P, "uint", V(1)) EXCEPT !.unknown = TRUE], Op("rawtag", <<66, 66>>, "raw", <<1>>, 0, FALSE, <<>>),
             Op("rawtag", <<18, 52>>, "raw", <<1>>, 0, FALSE, <<>>), Op("rawtag", <<1>>, "raw", <<>>, 0, FALSE, <<>>) }
 Ops == CASE OpSet = "core" -> OpsCore [] OpSet = "width" -> OpsCore \cup OpsWidth [] OpSet = "full" -> OpsCore \cup OpsFull
